@@ -371,8 +371,8 @@ class C02(vlib.Driver):
 
         def entry(ag):
             # alias classes are numbered per case: observations taken at different steps are put side by side
-            alias = evo._nl(ptab.setdefault(tuple(s_[2]), len(ptab)) for s_ in ag["slots"])
-            vals = evo._nl(tab.val(s_[3]) for s_ in ag["slots"])
+            alias = _pack(ptab.setdefault(tuple(s_[2]), len(ptab)) for s_ in ag["slots"])
+            vals = _pack(tab.val(s_[3]) for s_ in ag["slots"])
             return f"({evo.coq_aobs(ag, reg, tab)}, {alias}, {vals})"
         gsteps = []
         for op, rec, before, after in zip(case["ops"], obs["recs"], obs["states"], obs["states"][1:]):
@@ -606,6 +606,16 @@ class C02(vlib.Driver):
                 c["ops"] = case["ops"][:cut]
                 yield c
                 break
+
+
+def _pack(xs):
+    """a list of numbers < 2^20 - 1 as one number (see C02/Check.v [unpack])"""
+    out = 0
+    for i, x in enumerate(xs):
+        x = int(x) + 1
+        assert 0 < x < (1 << 20), "value too large for the packed exchange format"
+        out |= x << (20 * i)
+    return str(out)
 
 
 def _pool_run(case):
